@@ -30,6 +30,7 @@ def protoStep (p : Proto) : Out → Option Proto
   | .call r => if p.pending == some r then some p else none
   | .expectCall r => if p.pending == some r then some p else none
   | .continue100 => if p.pending.isSome && p.opened.isNone then some p else none
+  | .upgrade r => if p.pending == some r && p.opened.isNone then some p else none
   | _ => some p
 
 def protoRun (p : Proto) : List Out → Option Proto
@@ -54,6 +55,7 @@ def protoOf : St → Proto
   | .service r => ⟨some r.rid, none⟩
   | .sendPayload r => ⟨none, some (some r)⟩
   | .sendErrPayload r => ⟨none, some r⟩
+  | .upgrade r => ⟨some r.rid, none⟩
 
 /-- outputs that do not talk about requests / responses -/
 def neutral : Out → Bool
@@ -178,8 +180,8 @@ structure Inv (cfg : Cfg) (c : Core) : Prop where
   early : (c.headTimer = .active ∨ c.started = false) → c.st = .none ∧ ∀ m ∈ c.messages, isErrorMsg m = true
   notStarted : c.started = false → c.inDecode = false
   /-- the codec's context is the in-flight request's own -/
-  ctxExpect : ∀ r, c.st = .expect r → ctxMatches cfg c.ctx r
-  ctxService : ∀ r, c.st = .service r → ctxMatches cfg c.ctx r
+  ctxExpect : cfg.upgrade = false → ∀ r, c.st = .expect r → ctxMatches cfg c.ctx r
+  ctxService : cfg.upgrade = false → ∀ r, c.st = .service r → ctxMatches cfg c.ctx r
   /-- every queued request carries its own context -/
   ctxQueued : ∀ r ctx, Msg.item r ctx ∈ c.messages → ctxMatches cfg ctx r
 
@@ -298,8 +300,8 @@ theorem inv_sendResponse (cfg : Cfg) (s : DState) (r : Option Nat) (res : RespHe
     subst hsz
     exact ⟨rfl, hmsg⟩
   · intro h; simp only [core, hs, hd] at h ⊢; exact hI.notStarted h
-  · intro q h; exact absurd h (hne q).1
-  · intro q h; exact absurd h (hne q).2
+  · intro _ q h; exact absurd h (hne q).1
+  · intro _ q h; exact absurd h (hne q).2
   · intro q c h; simp only [core, hm] at h; exact hI.ctxQueued q c h
 
 /-! ## every step -/
@@ -438,12 +440,12 @@ theorem step_expectPoll (cfg : Cfg) (s s' : DState) (o : List Out) (res : Expect
         constructor
         · intro hh; exact absurd (by simpa [core] using hh) hne
         · exact hI.notStarted
-        · intro q hq; simp [core] at hq
-        · intro q hq
+        · intro _ q hq; simp [core] at hq
+        · intro hup q hq
           simp only [core] at hq
           have : r = q := by simpa using hq
           subst this
-          exact hI.ctxExpect r (by simp [core, hst])
+          exact hI.ctxExpect hup r (by simp [core, hst])
         · exact hI.ctxQueued
       | err hd size =>
         simp at h; obtain ⟨rfl, rfl⟩ := h
@@ -488,8 +490,8 @@ theorem step_bodyPoll (cfg : Cfg) (s s' : DState) (o : List Out) (res : BodyRes)
             exact absurd (by simpa [core, finishFlags_started] using hh) hne
           · intro hh
             exact hI.notStarted (by simpa [core, finishFlags_started] using hh)
-          · intro q hq; simp [core] at hq
-          · intro q hq; simp [core] at hq
+          · intro _ q hq; simp [core] at hq
+          · intro _ q hq; simp [core] at hq
           · exact hI.ctxQueued
       | err =>
         simp at h; obtain ⟨rfl, rfl⟩ := h
@@ -541,13 +543,13 @@ theorem inv_startRequest {cfg : Cfg} (s : DState) (r : ReqFacts) (hc : ctxMatche
   constructor
   · intro hh; simp only [core, ht, hs] at hh; exact absurd hh hne
   · intro hh; simp only [core, hs, hd] at hh ⊢; exact hn hh
-  · intro q hq'
+  · intro _ q hq'
     simp only [core, hctx] at hq' ⊢
     rcases hst with h | h <;> rw [h] at hq'
     · have : r = q := by simpa using hq'
       subst this; exact hc
     · simp at hq'
-  · intro q hq'
+  · intro _ q hq'
     simp only [core, hctx] at hq' ⊢
     rcases hst with h | h <;> rw [h] at hq'
     · simp at hq'
@@ -572,26 +574,48 @@ theorem applyDecoded_goal (cfg : Cfg) (s0 : DState) (d : Decoded) (hI : Inv cfg 
     obtain ⟨ast, amsg, actx, aht, asta, ain⟩ := acceptItem_frame s0 r
     simp only [applyDecoded]
     split
-    · rename_i hnone
-      have hstn : s0.st = .none := by rw [← ast]; simpa using hnone
-      obtain ⟨_, hp, _⟩ := startRequest_spec { acceptItem s0 r with ctx := newCtx cfg s0.ctx r } r
-      refine ⟨by rw [hstn]; exact hp, ?_⟩
-      apply inv_startRequest
-      · exact ctxMatches_new cfg _ r
-      · simp [aht, asta, hstarted]
-      · intro hh; simp [asta, hstarted] at hh
-      · intro q ctx hm; simp only [amsg] at hm; exact hI.ctxQueued q ctx (by simpa [core] using hm)
-    · refine ⟨by simp [ast, protoRun], ?_⟩
+    · -- queued for the upgrade service: the codec context is overwritten (no save / restore)
+      rename_i hupg
+      simp at hupg
+      refine ⟨rfl, ?_⟩
       constructor
-      · intro hh; simp [core, aht, asta, hstarted] at hh
-      · intro hh; simp [core, asta, hstarted] at hh
-      · intro q hq; simp only [core, ast, actx] at hq ⊢; exact hI.ctxExpect q (by simpa [core] using hq)
-      · intro q hq; simp only [core, ast, actx] at hq ⊢; exact hI.ctxService q (by simpa [core] using hq)
+      · intro hh; simp [core, hstarted] at hh
+      · intro _; rfl
+      · intro hup; rw [hupg.2] at hup; exact absurd hup (by simp)
+      · intro hup; rw [hupg.2] at hup; exact absurd hup (by simp)
       · intro q ctx hm
-        simp only [core, amsg] at hm
+        simp only [core] at hm
         rcases List.mem_append.mp hm with hm | hm
         · exact hI.ctxQueued q ctx (by simpa [core] using hm)
-        · simp at hm; obtain ⟨rfl, rfl⟩ := hm; exact ctxMatches_new cfg _ q
+        · simp at hm
+    · split
+      · rename_i hnone
+        have hstn : s0.st = .none := by rw [← ast]; simpa using hnone
+        obtain ⟨_, hp, _⟩ := startRequest_spec { acceptItem s0 r with ctx := newCtx cfg s0.ctx r } r
+        refine ⟨by rw [hstn]; exact hp, ?_⟩
+        apply inv_startRequest
+        · exact ctxMatches_new cfg _ r
+        · simp [aht, asta, hstarted]
+        · intro hh; simp [asta, hstarted] at hh
+        · intro q ctx hm; simp only [amsg] at hm; exact hI.ctxQueued q ctx (by simpa [core] using hm)
+      · refine ⟨by simp [ast, protoRun], ?_⟩
+        constructor
+        · intro hh; simp [core, aht, asta, hstarted] at hh
+        · intro hh; simp [core, asta, hstarted] at hh
+        · intro hup q hq; simp only [core, ast, actx] at hq ⊢; exact hI.ctxExpect hup q (by simpa [core] using hq)
+        · intro hup q hq; simp only [core, ast, actx] at hq ⊢; exact hI.ctxService hup q (by simpa [core] using hq)
+        · intro q ctx hm
+          simp only [core, amsg] at hm
+          rcases List.mem_append.mp hm with hm | hm
+          · exact hI.ctxQueued q ctx (by simpa [core] using hm)
+          · simp at hm; obtain ⟨rfl, rfl⟩ := hm; exact ctxMatches_new cfg _ q
+  | errTooLarge =>
+    simp only [applyDecoded]
+    have hc := core_takePayloadErr s0 .overflow
+    have hst : (s0.takePayloadErr .overflow).1.st = s0.st := by simpa [core] using congrArg Core.st hc
+    refine ⟨by simp only [pushError, hst]; exact protoRun_neutral _ _ (neutral_takePayloadErr s0 _), ?_⟩
+    have := inv_pushError (cfg := cfg) (c := core (s0.takePayloadErr .overflow).1) 431 (by rw [hc]; exact hI)
+    exact this
   | chunk n =>
     simp only [applyDecoded]
     split
@@ -684,6 +708,21 @@ theorem step_pop (cfg : Cfg) (s s' : DState) (o : List Out) (hI : Inv cfg (core 
           refine ⟨?_, inv_sendResponse cfg _ none _ (.sized 0) true hInv' (fun hh => ⟨rfl, ?_⟩)⟩
           · rw [hstn]; exact sendResponse_proto cfg _ none _ _ true none rfl
           · exact (hInv'.early (by simpa [core] using hh)).2
+        · -- the connection is handed to the upgrade service
+          rename_i r rest hm
+          have hmem : Msg.upgrade r ∈ s.messages := by rw [hm]; simp
+          have hne : ¬ (s.headTimer = .active ∨ s.flags.started = false) := by
+            intro hh
+            have := (hI.early (by simpa [core] using hh)).2 _ (by simpa [core] using hmem)
+            simp [isErrorMsg] at this
+          refine ⟨by rw [hstn]; simp [protoOf, protoRun, protoStep], ?_⟩
+          constructor
+          · intro hh; exact absurd (by simpa [core] using hh) hne
+          · exact hI.notStarted
+          · intro _ q hq; simp [core] at hq
+          · intro _ q hq; simp [core] at hq
+          · intro q c hq
+            exact hI.ctxQueued q c (by simp only [core]; rw [hm]; exact List.mem_cons_of_mem _ (by simpa [core] using hq))
         · exact ⟨rfl, hI⟩
     rw [h] at key
     exact key
@@ -773,6 +812,8 @@ theorem step_inv (cfg : Cfg) (s s' : DState) (e : Event) (o : List Out) (hI : In
   | ioShutdown ready => boring
   | readerPoll r => exact step_readerPoll cfg s s' o r hI h
   | readerDrop r => boring
+  | upgradeEncode res data => boring
+  | upgradeDone okay => boring
 
 /-- the invariant and the protocol view hold along every accepted event list -/
 theorem run_inv (cfg : Cfg) : ∀ (es : List Event) (s : DState) (outs : List Out),
@@ -874,8 +915,13 @@ theorem step_heads (cfg : Cfg) (s s' : DState) (e : Event) (o : List Out)
       | item rq =>
         simp only [applyDecoded]
         split
-        · exact headsOK_startRequest _ _ _
         · intro r f hm; simp at hm
+        · split
+          · exact headsOK_startRequest _ _ _
+          · intro r f hm; simp at hm
+      | errTooLarge =>
+        simp only [applyDecoded]
+        exact headsOK_neutral _ _ (neutral_takePayloadErr _ _)
       | chunk n =>
         simp only [applyDecoded]
         split
@@ -912,6 +958,7 @@ theorem step_heads (cfg : Cfg) (s s' : DState) (e : Event) (o : List Out)
       · split
         · exact headsOK_startRequest _ _ _
         · exact headsOK_sendResponse_none cfg s _ _ _ _
+        · intro r f hm; simp at hm
         · intro r f hm; simp at hm
     · simp at h
   | handlerPoll res =>
@@ -958,10 +1005,12 @@ theorem step_heads (cfg : Cfg) (s s' : DState) (e : Event) (o : List Out)
       · simp at h
     · simp at h
   | readerDrop r => boringH
+  | upgradeEncode res data => boringH
+  | upgradeDone okay => boringH
 
 
 /-- every response head on any accepted run was encoded with the context of its own request -/
-theorem run_heads (cfg : Cfg) : ∀ (es : List Event) (s : DState) (outs : List Out),
+theorem run_heads (cfg : Cfg) (hup : cfg.upgrade = false) : ∀ (es : List Event) (s : DState) (outs : List Out),
     runRev cfg es = some (s, outs) →
       ∀ r f, Out.head (some r) f ∈ outs →
         ∃ rq ctx res size, rq.rid = r ∧ ctxMatches cfg ctx rq ∧ f = headFacts ctx res size := by
@@ -988,8 +1037,8 @@ theorem run_heads (cfg : Cfg) : ∀ (es : List Event) (s : DState) (outs : List 
           have hI := (run_inv cfg es s0 outs0 h0).2
           have hc : ctxMatches cfg s0.ctx rq := by
             rcases hst with hst | hst
-            · exact hI.ctxService rq (by simpa [core] using hst)
-            · exact hI.ctxExpect rq (by simpa [core] using hst)
+            · exact hI.ctxService hup rq (by simpa [core] using hst)
+            · exact hI.ctxExpect hup rq (by simpa [core] using hst)
           exact ⟨rq, s0.ctx, res, size, hr, hc, hf⟩
 
 /-! ## after the end -/
@@ -1052,6 +1101,8 @@ theorem done_silent (cfg : Cfg) (s s' : DState) (e : Event) (o : List Out) (hm :
   | lingerPending => deadEv
   | shutdownDone => deadEv
   | ioShutdown ready => deadEv
+  | upgradeEncode res data => deadEv
+  | upgradeDone okay => deadEv
 
 /-- a body error ends the connection at once: no end-of-response is produced -/
 theorem bodyErr_step (cfg : Cfg) (s s' : DState) (o : List Out)
@@ -1191,8 +1242,10 @@ theorem closing_step (cfg : Cfg) (s s' : DState) (e : Event) (o : List Out) (hc 
     simp only [step, ok, inPoll] at h
     have hn : (s.mode == Mode.normal) = false := by simpa using hm
     simp [hn] at h
-    obtain ⟨_, rfl, rfl⟩ := h
-    exact ⟨⟨hf, by simp, ht⟩, by simp⟩
+    obtain ⟨_, h⟩ := h
+    split at h
+    · simp at h; obtain ⟨rfl, rfl⟩ := h; exact ⟨⟨hf, hm, ht⟩, by simp⟩
+    · simp at h; obtain ⟨rfl, rfl⟩ := h; exact ⟨⟨hf, by simp, ht⟩, by simp⟩
   | flushZero => closingEv
   | flushErr => closingEv
   | lingerArm => closingEv
@@ -1217,6 +1270,8 @@ theorem closing_step (cfg : Cfg) (s s' : DState) (e : Event) (o : List Out) (hc 
         exact ⟨hc, by simp⟩
       · simp at h
     · simp at h
+  | upgradeEncode res data => closingEv
+  | upgradeDone okay => closingEv
 
 /-- once the connection is closing (and the deciding poll is over) every continuation is silent -/
 theorem run_closing (cfg : Cfg) (es1 : List Event) (s1 : DState) (outs1 : List Out)
@@ -1290,6 +1345,7 @@ def PdecOK (pd : Option PDec) (res : Decoded × List RUnit × Option PDec) : Pro
   | .chunk _ => res.2.2.isSome = true
   | .needMore => res.2.2 = pd
   | .errParse => res.2.2 = pd
+  | .errTooLarge => True
 
 theorem decodeUnits_pdec (pd : Option PDec) (buf : List RUnit) : PdecOK pd (decodeUnits pd buf) := by
   cases pd with
@@ -1399,9 +1455,19 @@ theorem inv2_applyDecoded (cfg : Cfg) (s : DState) (hI : Inv2 s) (hrd : s.flags.
       unfold acceptItem
       cases hb : r.body <;> constructor <;> simp [pdecOf, hpay, hrd]
     split
-    · apply inv2_startRequest
-      exact ⟨hacc.slot, hacc.noDecode⟩
-    · exact ⟨hacc.slot, hacc.noDecode⟩
+    · constructor
+      · intro _; rfl
+      · intro _; rfl
+    · split
+      · apply inv2_startRequest
+        exact ⟨hacc.slot, hacc.noDecode⟩
+      · exact ⟨hacc.slot, hacc.noDecode⟩
+  | errTooLarge =>
+    refine ⟨?_, by simp⟩
+    simp only [applyDecoded, DState.takePayloadErr]
+    constructor
+    · simp [pushError]
+    · intro _; rfl
   | chunk n =>
     simp only [PdecOK] at hd
     refine ⟨?_, by simp⟩
@@ -1523,6 +1589,7 @@ theorem inv2_step (cfg : Cfg) (s s' : DState) (e : Event) (o : List Out) (hI : I
         · exact inv2_startRequest _ _ ⟨hI.slot, hI.noDecode⟩
         · exact inv2_sendResponse cfg _ none _ _ true ⟨hI.slot, hI.noDecode⟩
         · exact ⟨hI.slot, hI.noDecode⟩
+        · exact ⟨hI.slot, hI.noDecode⟩
     · simp at h
   | handlerPoll res =>
     simp only [step, ok] at h
@@ -1578,6 +1645,8 @@ theorem inv2_step (cfg : Cfg) (s s' : DState) (e : Event) (o : List Out) (hI : I
   | ioShutdown ready => inv2Ev
   | readerPoll r => inv2Ev
   | readerDrop r => inv2Ev
+  | upgradeEncode res data => inv2Ev
+  | upgradeDone okay => inv2Ev
 
 theorem run_inv2 (cfg : Cfg) : ∀ (es : List Event) (s : DState) (outs : List Out),
     runRev cfg es = some (s, outs) → Inv2 s := by
@@ -1629,8 +1698,13 @@ theorem applyDecoded_ka (cfg : Cfg) (s0 : DState) (d : Decoded) :
     simp only [applyDecoded]
     have : (acceptItem s0 r).flags = s0.flags := by unfold acceptItem; cases r.body <;> rfl
     split
-    · rw [startRequest_flags]; simp [this]
-    · simp [this]
+    · rfl
+    · split
+      · rw [startRequest_flags]; simp [this]
+      · simp [this]
+  | errTooLarge =>
+    simp only [applyDecoded, pushError, DState.takePayloadErr]
+    simp [(onSlot_frame s0 (·.setError .overflow)).2.2.1]
   | chunk n =>
     simp only [applyDecoded]
     split
@@ -1675,6 +1749,7 @@ theorem ka_step (cfg : Cfg) (s s' : DState) (e : Event) (o : List Out) (hk : s.f
         split at hk'
         · rw [startRequest_flags] at hk'; simp [hk] at hk'
         · have := sendResponse_ka cfg _ none _ _ true hk'; simp [hk] at this
+        · simp [hk] at hk'
         · rename_i hm
           simp at hk' hd
           refine ⟨rfl, ?_, hg.2, hm, hd, ?_⟩
@@ -1790,6 +1865,8 @@ theorem ka_step (cfg : Cfg) (s s' : DState) (e : Event) (o : List Out) (hk : s.f
   | ioShutdown ready => exfalso; kaEv
   | readerPoll r => exfalso; kaEv
   | readerDrop r => exfalso; kaEv
+  | upgradeEncode res data => exfalso; kaEv
+  | upgradeDone okay => exfalso; kaEv
 
 
 end ActixModel.Disp
